@@ -1,6 +1,136 @@
-(* C09 — type inference is sound for evaluation (placeholder; theorems follow) *)
-From CC Require Import Base.Prelude Base.Scalar Base.Ty Base.Shape Graph.Value Graph.IR Graph.Eval Graph.Typing.
+(* C09 — type inference is sound for evaluation; well-typed programs never crash.
 
-Theorem C09_infer_nop : forall t, ty_valid t = true -> infer ONOP [t] = Ok t.
-Proof. intros t H. unfold infer, infer_op, register. cbn. now rewrite H. Qed.
-Print Assumptions C09_infer_nop.
+   infer (Graph/Typing.v) mirrors TypeInferenceWorker::process_node and is tied to
+   Graph::add_node on every run (accepted and rejected attempts); eval_node (Graph/Eval.v) mirrors
+   SimpleEvaluator::evaluate_node (tied by C10).  The theorems relate the two models:
+   a value computed for a node the type checker accepted has the inferred type, and the
+   computation ends in a value or a runtime error, never in a panic.
+
+   Proved per operation (preserves o) for the operations of [proved_op]; the statement for all
+   operations is C09_full.  Hypotheses: dependency values have the dependency types, which are
+   node types (valid, u64 dimensions); u64 parameters of the operation are non-negative. *)
+From CC Require Import Base.Prelude Base.Scalar Base.Ty Base.Shape Graph.Value Graph.IR Graph.Eval
+  Graph.Typing Proofs.EvalProofs Proofs.TypingBase Proofs.TypingTuple Proofs.TypingArith
+  Proofs.TypingProofs.
+
+(* The full statement: for every operation the evaluator computes itself (everything except the
+   values supplied from outside: Input, Random, PRF, ... see Eval.from_tape). *)
+Definition C09_full : Prop :=
+  forall o ts t vs,
+    from_tape o = false -> op_u64 o = true ->
+    infer o ts = Ok t ->
+    Forall2 (fun v t => has_type v t = true /\ ty_ok t = true) vs ts ->
+    match eval_node o ts t vs with
+    | Ok v => has_type v t = true
+    | Err => True
+    | Panic | OutOfFuel => False
+    end.
+
+(* --- one theorem per group of operations ------------------------------------------------ *)
+Definition C09_statement (o : op) : Prop :=
+  forall ts t vs,
+    op_u64 o = true ->
+    infer o ts = Ok t ->
+    Forall2 (fun v t => has_type v t = true /\ ty_ok t = true) vs ts ->
+    match eval_node o ts t vs with
+    | Ok v => has_type v t = true
+    | Err => True
+    | Panic | OutOfFuel => False
+    end.
+
+Theorem C09_preservation_constants :
+  (forall t, C09_statement (OZeros t)) /\ (forall t, C09_statement (OOnes t)) /\
+  (forall t v, C09_statement (OConstant t v)) /\ C09_statement ONOP.
+Proof.
+  repeat split; intros; first [apply preserves_zeros | apply preserves_ones
+                              | apply preserves_constant | apply preserves_nop].
+Qed.
+
+Theorem C09_preservation_tuples :
+  C09_statement OCreateTuple /\ (forall names, C09_statement (OCreateNamedTuple names)) /\
+  (forall t, C09_statement (OCreateVector t)) /\ (forall i, C09_statement (OTupleGet i)) /\
+  (forall name, C09_statement (ONamedTupleGet name)) /\ C09_statement OVectorGet /\
+  (forall n, C09_statement (ORepeat n)).
+Proof.
+  repeat split; intros; first [apply preserves_create_tuple | apply preserves_create_named_tuple
+    | apply preserves_create_vector | apply preserves_tuple_get | apply preserves_named_tuple_get
+    | apply preserves_vector_get | apply preserves_repeat].
+Qed.
+
+(* broadcasting never reads outside its operand and produces prod(result shape) elements *)
+Theorem C09_broadcast_to_shape_total : forall (P : Z -> Prop) arr shape shape_res,
+  valid_shape shape -> valid_shape shape_res -> (length shape <= length shape_res)%nat ->
+  Z.of_nat (length arr) = prod_list shape -> Forall P arr ->
+  exists r, broadcast_to_shape arr shape shape_res = Ok r /\
+            Z.of_nat (length r) = prod_list shape_res /\ Forall P r.
+Proof. exact broadcast_to_shape_ok. Qed.
+
+Theorem C09_preservation_elementwise :
+  C09_statement OAdd /\ C09_statement OSubtract /\ C09_statement OMultiply /\
+  C09_statement OMixedMultiply /\ (forall d, C09_statement (OTruncate d)).
+Proof.
+  repeat split; intros; first [apply preserves_add | apply preserves_subtract
+    | apply preserves_multiply | apply preserves_mixed_multiply | apply preserves_truncate].
+Qed.
+
+(* --- combined ---------------------------------------------------------------------------- *)
+Theorem C09_preservation_partial : forall o, proved_op o = true -> C09_statement o.
+Proof. exact preservation_partial. Qed.
+
+(* graphs whose computed operations are all in the proved set: every node value has its node
+   type, and evaluation returns values or a runtime error, never a panic *)
+Theorem C09_eval_graph_typed_partial : forall tape nodes,
+  graph_typed proved_op tape nodes ->
+  match eval_graph_nodes nodes tape with
+  | Ok vals => Forall2 (fun v t => has_type v t = true) vals (map n_ty nodes)
+  | Err => True
+  | Panic | OutOfFuel => False
+  end.
+Proof. intros. apply (eval_graph_typed proved_op); [exact preservation_partial| assumption]. Qed.
+
+(* --- non-vacuity ------------------------------------------------------------------------- *)
+(* a broadcasting Add: [2;1;3] + [3] on I8, accepted with type [2;1;3] and evaluated to a value *)
+Example C09_example_add :
+  infer OAdd [TArray [2; 1; 3] I8; TArray [3] I8] = Ok (TArray [2; 1; 3] I8) /\
+  eval_node OAdd [TArray [2; 1; 3] I8; TArray [3] I8] (TArray [2; 1; 3] I8)
+            [VArr [250; 1; 2; 3; 4; 5]; VArr [10; 20; 30]] = Ok (VArr [4; 21; 32; 13; 24; 35]) /\
+  has_type (VArr [4; 21; 32; 13; 24; 35]) (TArray [2; 1; 3] I8) = true.
+Proof. repeat split; vm_compute; reflexivity. Qed.
+
+(* rejection at node-addition time *)
+Example C09_example_reject :
+  infer OAdd [TArray [2; 3] I8; TArray [2] I8] = Err /\
+  infer OAdd [TArray [2; 3] I8; TArray [2; 3] U8] = Err /\
+  infer (OTupleGet 2) [TTuple [TScalar Bit; TScalar U8]] = Err /\
+  infer (OTruncate 0) [TScalar U8] = Err.
+Proof. repeat split; vm_compute; reflexivity. Qed.
+
+(* a typed graph: x : [2]u8 (input), c = Constant, s = x + c, t = (s, c), g = t.0 *)
+Definition C09_example_nodes : list node :=
+  [ mkNode (OInput (TArray [2] U8)) [] [] [] (TArray [2] U8);
+    mkNode (OConstant (TScalar U8) (VArr [255])) [] [] [] (TScalar U8);
+    mkNode OAdd [0; 1] [] [] (TArray [2] U8);
+    mkNode OCreateTuple [2; 1] [] [] (TTuple [TArray [2] U8; TScalar U8]);
+    mkNode (OTupleGet 0) [3] [] [] (TArray [2] U8) ].
+Definition C09_example_tape := tape_of_list [(0, VArr [1; 7])].
+Example C09_example_graph_typed : graph_typed proved_op C09_example_tape C09_example_nodes.
+Proof.
+  unfold graph_typed, C09_example_nodes. cbn [graph_typed_from from_tape n_op n_ty n_deps].
+  repeat split; try reflexivity.
+  - intros v H. vm_compute in H. inversion H. reflexivity.
+  - eexists. split; vm_compute; reflexivity.
+  - eexists. split; vm_compute; reflexivity.
+  - eexists. split; vm_compute; reflexivity.
+  - eexists. split; vm_compute; reflexivity.
+Qed.
+Example C09_example_graph_eval :
+  eval_graph_nodes C09_example_nodes C09_example_tape =
+  Ok [VArr [1; 7]; VArr [255]; VArr [0; 6]; VTup [VArr [0; 6]; VArr [255]]; VArr [0; 6]].
+Proof. vm_compute. reflexivity. Qed.
+
+Print Assumptions C09_preservation_constants.
+Print Assumptions C09_preservation_tuples.
+Print Assumptions C09_broadcast_to_shape_total.
+Print Assumptions C09_preservation_elementwise.
+Print Assumptions C09_preservation_partial.
+Print Assumptions C09_eval_graph_typed_partial.
